@@ -55,3 +55,13 @@ def register(check, not_yet):
           "the complete messages plus the untouched remainder, and resuming yields the rest; EDN/JSON round trips on shapes with symbolic leaves.",
           "Bound: byte strings <= 3, 2 messages, small ints; shapes enumerated. Python's json/int()/str() are environment.",
           "CrossHair (z3) symbolic execution of the compiled codec namespaces", "DESIGN.md section 4 C19", "A:crosshair")
+    check("C15", "translation_validation",
+          "Translation validation of the real optimizer: PythonASTOptimizer.visit is wrapped (in the check's process) while every "
+          "bundled namespace and a generated corpus are compiled from source; every (before, after) module pair is walked in lock "
+          "step: statement differences must be one of the allowed drops (side conditions by purity analysis) and every rewritten "
+          "expression is an SMT query over uninterpreted functions with world-token threading, so value, operand order and number of "
+          "effects are all part of the term (unsat = same behaviour). Synthetic before-trees cover every public operator-module "
+          "function x operand shapes and each visit_* method. sat answers are replayed by executing both versions.",
+          "Assumes plain name loads are effect-free and operator.X(a,b) means 'a X b' per the Python library reference; untouched "
+          "statements are equal by AST identity.",
+          "SMT (z3, EUF) equivalence queries per rewritten expression + structural rule check", "DESIGN.md section 4 C15", "B:pysym")
